@@ -22,6 +22,11 @@ impl Wake for Flag {
 }
 
 pub struct Root<'a> {
+    /// A current-thread tokio runtime whose context is entered while the server is polled, so
+    /// that code which calls `tokio::spawn`, `spawn_blocking`, `tokio::time` or `tokio::net`
+    /// finds a runtime instead of panicking.  harper-ls uses none of these today; tasks it
+    /// might spawn are driven after every poll of the root future.
+    rt: Option<tokio::runtime::Runtime>,
     fut: Option<Pin<Box<dyn Future<Output = ()> + 'a>>>,
     flag: Arc<Flag>,
     waker: Waker,
@@ -43,7 +48,8 @@ impl<'a> Root<'a> {
     pub fn new(fut: Pin<Box<dyn Future<Output = ()> + 'a>>) -> Self {
         let flag = Arc::new(Flag(AtomicBool::new(true)));
         let waker = Waker::from(flag.clone());
-        Root { fut: Some(fut), flag, waker, polls: 0 }
+        let rt = tokio::runtime::Builder::new_current_thread().enable_all().build().ok();
+        Root { rt, fut: Some(fut), flag, waker, polls: 0 }
     }
 
     pub fn is_done(&self) -> bool {
@@ -61,6 +67,27 @@ impl<'a> Root<'a> {
         loop {
             let Some(fut) = self.fut.as_mut() else { return PollOutcome::Done };
             if !self.flag.0.swap(false, Ordering::SeqCst) {
+                // let tasks the server may have spawned run; they may wake the root
+                let mut drove = false;
+                if let Some(rt) = self.rt.as_ref() {
+                    if rt.metrics().num_alive_tasks() > 0 {
+                        let r = std::panic::catch_unwind(std::panic::AssertUnwindSafe(|| {
+                            rt.block_on(async {
+                                for _ in 0..8 {
+                                    tokio::task::yield_now().await;
+                                }
+                            })
+                        }));
+                        if let Err(p) = r {
+                            let msg = p.downcast_ref::<&str>().map(|s| s.to_string()).or_else(|| p.downcast_ref::<String>().cloned()).unwrap_or_else(|| "panic".into());
+                            return PollOutcome::Panicked(format!("in a spawned task: {msg}"));
+                        }
+                        drove = true;
+                    }
+                }
+                if drove && self.flag.0.load(Ordering::SeqCst) {
+                    continue;
+                }
                 return PollOutcome::Idle;
             }
             n += 1;
@@ -69,6 +96,7 @@ impl<'a> Root<'a> {
             }
             self.polls += 1;
             let mut cx = Context::from_waker(&self.waker);
+            let _guard = self.rt.as_ref().map(|rt| rt.enter());
             let r = std::panic::catch_unwind(std::panic::AssertUnwindSafe(|| fut.as_mut().poll(&mut cx)));
             match r {
                 Ok(Poll::Ready(())) => {
@@ -97,5 +125,9 @@ impl<'a> Root<'a> {
     /// "Kill the process": drop the future without polling it again.
     pub fn kill(&mut self) {
         self.fut = None;
+        // spawned tasks die with the process
+        if let Some(rt) = self.rt.take() {
+            rt.shutdown_background();
+        }
     }
 }
